@@ -9,7 +9,7 @@ from vf.core.result import Res
 from vf.gen.ir import CANON, Layout, render, walk
 from vf.gen.programs import Gen
 from vf.harness import REPO, assemble
-from vf.progcheck import materialise, run_ir
+from vf.progcheck import _coalesce, materialise, run_ir
 
 LEVEL = "exploration"
 RULE = (
@@ -92,7 +92,8 @@ def _children_outside_macros(st: dict) -> list[list]:
 
 
 def sig(r) -> tuple:
-    return (r.ok, tuple((a, bytes(b)) for a, b in r.blocks), tuple(sorted(r.labels)), tuple(sorted(r.symbols.items())))
+    # how a run of bytes is cut into write_block calls is not compared (contiguous calls are joined)
+    return (r.ok, tuple(_coalesce(r.blocks)), tuple(sorted(r.labels)), tuple(sorted(r.symbols.items())))
 
 
 def classify(knobs: list[str]) -> str:
